@@ -51,6 +51,8 @@ impl<'a> Tr<'a> {
                     Ok(Val { s: lit(n), ty })
                 }
                 Lit::Bool(b) => Ok(Val { s: if b.value { "true".into() } else { "false".into() }, ty: Ty::Bool }),
+                // a `char` is its code point (a u32 whose values are the scalar values)
+                Lit::Char(c) => Ok(Val { s: lit(c.value() as i128), ty: Ty::int(IntTy::U32) }),
                 _ => Err(unsupported(e, "literal that is not an integer or bool")),
             },
             Expr::Paren(p) => self.pure(&p.expr, env, hint),
